@@ -1,14 +1,18 @@
 #!/bin/bash
+# numba caches do not notice a changed callee in another file, so all caches are purged before each step
 # usage: seed_confirm.sh <agent dir e.g. /tmp/seed/C06_a> <k>   -- confirms a seeded change in the agent's own scratch worktree:
 # demo fails with the patch, the unedited suite shows only the 4 baseline failures, demo passes without the patch
 D=$1; K=$2; WT=$D/wt; O=$D/out/$K
 cd $WT || exit 9
 git checkout -q -- . ; git apply --check $O/patch.diff || { echo "PATCH-DOES-NOT-APPLY"; exit 9; }
 git apply $O/patch.diff
+purge(){ find $WT -name __pycache__ -type d -prune -exec rm -rf {} + ; rm -f $WT/mchap/tests/test_io/data/wrong.fasta.fai; }
+purge
 timeout 600 /venv/bin/python $O/demo.py > $O/confirm_demo_with.log 2>&1; A=$?
 /venv/bin/python -m pytest -q -p no:cacheprovider --timeout=900 -n 6 > $O/confirm_suite.log 2>&1
 S=$(tail -1 $O/confirm_suite.log)
 F=$(grep -c "^FAILED" $O/confirm_suite.log); FB=$(grep "^FAILED" $O/confirm_suite.log | grep -c -E "test_help_text\[(assemble|call|call-exact)\]|test_comb\[0-0\]")
 git checkout -q -- .
+purge
 timeout 600 /venv/bin/python $O/demo.py > $O/confirm_demo_without.log 2>&1; B=$?
 echo "$D/$K demo_with=$A demo_without=$B failed=$F baseline_failed=$FB suite: $S"
